@@ -252,7 +252,7 @@ def parse_lines(pm: ParserModel, lines: Sequence[Line], final_eol: bool, faulty:
         if isinstance(e, ast.Call):
             name = _dotted(e.func) or ""
             last = name.split(".")[-1]
-            if last in ("Field", "Constant", "PaddingField") and name.split(".")[0] not in f.env:
+            if last in ("Field", "Constant", "PaddingField") and (name.split(".")[0] not in f.env or type(f.env.get(name)).__name__ == "ClassInfo"):
                 # the name is the second argument of Field / Constant
                 args = [f.fold(a) for a in e.args]
                 nm = args[1] if len(args) > 1 and last != "PaddingField" else ""
